@@ -417,7 +417,8 @@ MUST_HIT = {
     "C07": {"swap.crosses_a_tick": 10, "liq.credits_fees": 20, "update_fees.credits_fees": 3, "liq.lower_is_others_upper": 20, "liq.initializes_a_tick_at_or_below_price": 10,
             "liq.range_changed": 3},
     "C08": {"liq.price_below_range": 30, "liq.price_in_range": 30, "liq.price_above_range": 30, "liq.first_deposit": 20, "liq.partial_decrease": 20, "liq.decrease_to_zero": 30,
-            "liq.range_changed": 3},
+            "liq.range_changed": 3,
+            "liq.by_token_amounts.price_exactly_on_lower_bound": 2, "liq.by_token_amounts.price_exactly_on_upper_bound": 2},
     "C10": {"swap.crosses>=3_ticks": 50, "swap.crosses_ticks_of_two_arrays": 50, "swap.ends_on_initialized_tick.a_to_b": 50, "swap.ends_on_initialized_tick.b_to_a": 50,
             "swap.starts_on_initialized_tick_shifted": 50, "swap.starts_on_initialized_tick_unshifted": 20,
             "twohop.repackaged": 10, "twohop.repackaged.second_leg_leaves_its_first_array": 2, "twohop.repackaged.first_leg_leaves_its_first_array": 2},
